@@ -47,3 +47,26 @@ Example C01_header_example :
                     m_bcd := [0;0;0;0;0;1;114;153;132;23]; m_serial := 65535; m_sum := 3; m_no := 2;
                     m_body := []; m_check := 0 |}.
 Proof. unfold decoded_header, bytes; cbn; repeat split; try reflexivity; repeat constructor. Qed.
+
+(* the header of the example above IS what decode returns on a concrete fragmented, encrypted 2019 frame (package 2 of 3,
+   serial 65535, empty body): the premise of C01_roundtrip is met by a decoded terminal message *)
+Definition ex_frag2019 : list N :=
+  [126; 2; 0; 100; 0; 1; 0; 0; 0; 0; 0; 1; 114; 153; 132; 23; 255; 255; 0; 3; 0; 2; 31; 126].
+Example C01_header_example_decoded : exists m, decode ex_frag2019 = Ok m /\ m_id m = 512 /\ m_ver m = 1 /\
+  m_enc m = 1 /\ m_frag m = 1 /\ m_bcd m = [0;0;0;0;0;1;114;153;132;23] /\ m_serial m = 65535 /\ decoded_header m.
+Proof.
+  destruct (decode ex_frag2019) as [m| |] eqn:E; [|vm_compute in E; discriminate E ..].
+  exists m. pose proof E as E'. vm_compute in E'. injection E' as <-.
+  repeat split; try reflexivity. apply (C01_decoded_headers_exist ex_frag2019); [repeat constructor|exact E].
+Qed.
+
+(* an instance of the round trip evaluated: a reply 0x8001 with platform serial 0x7d7e and the body 7e 7d 01 02 7e on
+   that header: every special byte is escaped on the wire and comes back *)
+Example C01_roundtrip_evaluated :
+  match decode ex_frag2019 with
+  | Ok h => let f := encode h 32769 32126 [126; 125; 1; 2; 126] in
+            (match decode f with Ok m => (m_id m, m_serial m, m_body m, m_frag m, m_bcd m) | _ => (0, 0, [], 9, []) end,
+             existsb (N.eqb 126) (removelast (tl f)))
+  | _ => ((0, 0, [], 9, []), true)
+  end = ((32769, 32126, [126; 125; 1; 2; 126], 0, [0;0;0;0;0;1;114;153;132;23]), false).
+Proof. vm_compute. reflexivity. Qed.
